@@ -86,21 +86,17 @@ Fixpoint tree_ind' (P : tree -> Prop)
   end.
 
 Definition out_tree (r : outcome) : tree := match r with Done t => t | Raised _ p => p end.
-
-Lemma merge_obj_eq : forall via sd sms od oms,
-  merge_obj via (Obj sd sms) (Obj od oms) =
+Lemma merge_obj_eq : forall sd sms od oms,
+  merge_obj (Obj sd sms) (Obj od oms) =
   let od1 := with_doc od (merge_doc (ndoc od) (ndoc sd)) in
   match buffer_items (nov sd) with
   | Err e => Raised e (Obj od1 oms)
   | Ok buf =>
-      match apply_buffer buf oms with
-      | (oms1, Some e) => Raised e (Obj od1 oms1)
-      | (oms1, None) =>
-          let od2 := with_imp od1 (update_imports (nimp od) (nimp sd)) in
-          match merge_members merge_obj via sms oms1 with
-          | (oms2, Some e) => Raised e (Obj od2 oms2)
-          | (oms2, None) => Done (Obj od2 oms2)
-          end
+      let oms1 := apply_buffer buf oms in
+      let od2 := with_imp od1 (update_imports (nimp od) (nimp sd)) in
+      match merge_members merge_obj sms oms1 with
+      | (oms2, Some e) => Raised e (Obj od2 oms2)
+      | (oms2, None) => Done (Obj od2 oms2)
       end
   end.
 Proof. reflexivity. Qed.
@@ -198,25 +194,29 @@ Proof. intros ms l n m H. exists m; split; auto using pres_refl, lookup_app_l. Q
 
 Lemma pres_with_data : forall d d' ms, nkind d = nkind d' -> pres (Obj d ms) (Obj d' ms).
 Proof. intros; apply pres_obj; auto using mpres_refl. Qed.
+Lemma set_ov_pres : forall m ovs, pres m (set_ov m ovs).
+Proof.
+  intros m ovs. unfold set_ov. destruct (final m) as [d mm|tg rt|tg rt y] eqn:F; try apply pres_refl.
+  destruct (kind_eqb (nkind d) KFun); [|apply pres_refl].
+  apply pres_retarget. rewrite F. apply pres_with_data; reflexivity.
+Qed.
 
-Lemma apply_buffer_mpres : forall buf ms, mpres ms (fst (apply_buffer buf ms)).
+Lemma apply_buffer_mpres : forall buf ms, mpres ms (apply_buffer buf ms).
 Proof.
   induction buf as [|[fn ovs] r IH]; simpl; intros ms; [apply mpres_refl|].
   destruct ovs as [|x l]; auto.
   destruct (lookup fn ms) as [m|] eqn:L; auto.
-  unfold set_ov. destruct (final m) as [d mm|tg rt|tg rt y] eqn:F; simpl; try apply mpres_refl.
-  eapply mpres_trans; [|apply IH]. eapply mpres_assign; eauto.
-  apply pres_retarget. rewrite F. apply pres_with_data; reflexivity.
+  eapply mpres_trans; [|apply IH]. eapply mpres_assign; eauto. apply set_ov_pres.
 Qed.
 
 Lemma merge_fun_kind : forall o s, nkind (merge_fun o s) = nkind o.
 Proof. intros; unfold merge_fun. destruct (truthy (nov s)); reflexivity. Qed.
 
-Lemma merge_members_mpres : forall rec via sl,
-  Forall (fun p => forall v om, pres om (out_tree (rec v (snd p) om))) sl ->
-  forall acc, mpres acc (fst (merge_members rec via sl acc)).
+Lemma merge_members_mpres : forall rec sl,
+  Forall (fun p => forall om, pres om (out_tree (rec (snd p) om))) sl ->
+  forall acc, mpres acc (fst (merge_members rec sl acc)).
 Proof.
-  intros rec via sl F; induction F as [|[n sm] r H F IH]; simpl; intros acc; [apply mpres_refl|].
+  intros rec sl F; induction F as [|[n sm] r H F IH]; simpl; intros acc; [apply mpres_refl|].
   destruct (lookup n acc) as [om|] eqn:L.
   - destruct sm as [smd smms|tg rt|tg rt x]; auto.
     destruct (final om) as [omd omms|tg rt|tg rt x] eqn:FO; auto.
@@ -224,59 +224,55 @@ Proof.
     assert (STEP : forall t', pres (Obj omd omms) t' -> mpres acc (assign n (retarget om t') acc)).
     { intros t' P. eapply mpres_assign; eauto. apply pres_retarget. now rewrite FO. }
     destruct (nkind omd) eqn:K.
-    + specialize (H (via || is_alto om) (Obj omd omms)). simpl in H.
-      destruct (rec (via || is_alto om) (Obj smd smms) (Obj omd omms)) as [t|e p]; simpl in H.
+    + specialize (H (Obj omd omms)). simpl in H.
+      destruct (rec (Obj smd smms) (Obj omd omms)) as [t|e p]; simpl in H.
       * eapply mpres_trans; [|apply IH]. auto.
       * destruct e; simpl; auto. eapply mpres_trans; [|apply IH]. auto.
-    + specialize (H (via || is_alto om) (Obj omd omms)). simpl in H.
-      destruct (rec (via || is_alto om) (Obj smd smms) (Obj omd omms)) as [t|e p]; simpl in H.
+    + specialize (H (Obj omd omms)). simpl in H.
+      destruct (rec (Obj smd smms) (Obj omd omms)) as [t|e p]; simpl in H.
       * eapply mpres_trans; [|apply IH]. auto.
       * destruct e; simpl; auto. eapply mpres_trans; [|apply IH]. auto.
     + eapply mpres_trans; [|apply IH]. apply STEP. apply pres_with_data. now rewrite merge_fun_kind.
     + eapply mpres_trans; [|apply IH]. apply STEP. apply pres_with_data. reflexivity.
-  - destruct via; auto. eapply mpres_trans; [apply mpres_app|apply IH].
+  - eapply mpres_trans; [apply mpres_app|apply IH].
 Qed.
 
 (* Whatever the stubs are, whether the merge completes or raises: nothing of the runtime tree is lost. *)
-Lemma merge_obj_pres : forall s via o, pres o (out_tree (merge_obj via s o)).
+Lemma merge_obj_pres : forall s o, pres o (out_tree (merge_obj s o)).
 Proof.
-  induction s as [tg rt|tg rt x _|sd sms IH] using tree_ind'; intros via o.
+  induction s as [tg rt|tg rt x _|sd sms IH] using tree_ind'; intros o.
   - simpl. apply pres_refl.
   - simpl. apply pres_refl.
   - destruct o as [od oms|tg rt|tg rt x]; [|simpl; apply pres_refl|simpl; apply pres_refl].
     rewrite merge_obj_eq. cbv zeta.
     destruct (buffer_items (nov sd)) as [buf|e]; simpl.
     + pose proof (apply_buffer_mpres buf oms) as HB.
-      destruct (apply_buffer buf oms) as [oms1 [e|]]; simpl in *.
-      * apply pres_obj; auto.
-      * assert (IH' : Forall (fun p => forall v om, pres om (out_tree (merge_obj v (snd p) om))) sms).
-        { eapply Forall_impl; [|exact IH]. simpl. intros a Ha v om. apply Ha. }
-        pose proof (merge_members_mpres merge_obj via sms IH' oms1) as HM.
-        destruct (merge_members merge_obj via sms oms1) as [oms2 [e|]]; simpl in *;
-          apply pres_obj; auto; eapply mpres_trans; eauto.
+      pose proof (merge_members_mpres merge_obj sms IH (apply_buffer buf oms)) as HM.
+      destruct (merge_members merge_obj sms (apply_buffer buf oms)) as [oms2 [e|]]; simpl in *;
+        apply pres_obj; auto; eapply mpres_trans; eauto.
     + apply pres_obj; auto using mpres_refl.
 Qed.
 
-Lemma keeps_runtime_members : forall via s o r p x,
-  merge_obj via s o = Done r -> at_path p o = Some x ->
+Lemma keeps_runtime_members : forall s o r p x,
+  merge_obj s o = Done r -> at_path p o = Some x ->
   exists y, at_path p r = Some y /\ shape_of y = shape_of x /\ alias_id y = alias_id x.
 Proof.
-  intros via s o r p x H HP. pose proof (merge_obj_pres s via o) as P. rewrite H in P. simpl in P.
+  intros s o r p x H HP. pose proof (merge_obj_pres s o) as P. rewrite H in P. simpl in P.
   apply (P p x HP).
 Qed.
 
-Lemma keeps_runtime_members_even_when_raising : forall via s o e part p x,
-  merge_obj via s o = Raised e part -> at_path p o = Some x ->
+Lemma keeps_runtime_members_even_when_raising : forall s o e part p x,
+  merge_obj s o = Raised e part -> at_path p o = Some x ->
   exists y, at_path p part = Some y /\ shape_of y = shape_of x /\ alias_id y = alias_id x.
 Proof.
-  intros via s o e part p x H HP. pose proof (merge_obj_pres s via o) as P. rewrite H in P. simpl in P.
+  intros s o e part p x H HP. pose proof (merge_obj_pres s o) as P. rewrite H in P. simpl in P.
   apply (P p x HP).
 Qed.
 
-Lemma never_touches_aliases : forall via s o r p tg rt,
-  out_tree (merge_obj via s o) = r -> at_path p o = Some (Al tg rt) -> at_path p r = Some (Al tg rt).
+Lemma never_touches_aliases : forall s o r p tg rt,
+  out_tree (merge_obj s o) = r -> at_path p o = Some (Al tg rt) -> at_path p r = Some (Al tg rt).
 Proof.
-  intros via s o r p tg rt H HP. pose proof (merge_obj_pres s via o) as P. rewrite H in P.
+  intros s o r p tg rt H HP. pose proof (merge_obj_pres s o) as P. rewrite H in P.
   destruct (P p _ HP) as (y & Hy & S & A). rewrite Hy. f_equal.
   destruct y; simpl in *; try discriminate. now inversion A.
 Qed.
@@ -285,12 +281,9 @@ Qed.
 Definition hit1 (buf : list (string * list string)) (n : string) : option (list string) :=
   match lookup n buf with Some (x :: l) => Some (x :: l) | _ => None end.
 
-(* what _merge_stubs_overloads makes of the member called n *)
+(* what _merge_stubs_overloads makes of the member called n: only a function (possibly behind an alias) changes *)
 Definition buffered (buf : list (string * list string)) (n : string) (m : tree) : tree :=
-  match hit1 buf n, final m with
-  | Some ovs, Obj d ms => retarget m (Obj (with_ov d (OvList ovs)) ms)
-  | _, _ => m
-  end.
+  match hit1 buf n with Some ovs => set_ov m ovs | None => m end.
 
 Lemma hit1_cons_other : forall fn ovs r n, fn <> n -> hit1 ((fn, ovs) :: r) n = hit1 r n.
 Proof. intros; unfold hit1; simpl. now rewrite eqb_neq'. Qed.
@@ -301,42 +294,51 @@ Proof. intros r n H. unfold hit1. apply lookup_none_notin in H. now rewrite H. Q
 Lemma buffered_none : forall buf n m, hit1 buf n = None -> buffered buf n m = m.
 Proof. intros. unfold buffered. now rewrite H. Qed.
 
-Lemma apply_buffer_lookup : forall buf ms ms',
-  NoDup (names buf) -> apply_buffer buf ms = (ms', None) ->
-  forall n, lookup n ms' = option_map (buffered buf n) (lookup n ms).
+Lemma apply_buffer_lookup : forall buf ms,
+  NoDup (names buf) ->
+  forall n, lookup n (apply_buffer buf ms) = option_map (buffered buf n) (lookup n ms).
 Proof.
-  induction buf as [|[fn ovs] r IH]; simpl; intros ms ms' ND H n.
-  - inversion H; subst. destruct (lookup n ms'); reflexivity.
+  induction buf as [|[fn ovs] r IH]; simpl; intros ms ND n.
+  - destruct (lookup n ms); reflexivity.
   - inversion ND as [|? ? NI ND']; subst.
     assert (HR : hit1 r fn = None) by (apply hit1_notin; exact NI).
     destruct ovs as [|x l].
-    + rewrite (IH _ _ ND' H n). destruct (lookup n ms) as [m|]; simpl; auto. f_equal.
+    + rewrite (IH _ ND' n). destruct (lookup n ms) as [m|]; simpl; auto. f_equal.
       unfold buffered. destruct (string_dec fn n) as [->|NE].
       * rewrite HR. unfold hit1; simpl. now rewrite String.eqb_refl.
       * now rewrite hit1_cons_other.
     + destruct (lookup fn ms) as [m|] eqn:L.
-      * unfold set_ov in H. destruct (final m) as [d mm|tg rt|tg rt y] eqn:F; simpl in H; try discriminate.
-        rewrite (IH _ _ ND' H n).
+      * rewrite (IH _ ND' n).
         destruct (string_dec fn n) as [->|NE].
         -- rewrite lookup_assign_same, L. simpl. f_equal. rewrite (buffered_none r n _ HR).
-           unfold buffered, hit1; simpl. rewrite String.eqb_refl. now rewrite F.
+           unfold buffered, hit1; simpl. now rewrite String.eqb_refl.
         -- rewrite lookup_assign_other by auto. destruct (lookup n ms); simpl; auto. f_equal.
            unfold buffered. now rewrite hit1_cons_other.
-      * rewrite (IH _ _ ND' H n).
+      * rewrite (IH _ ND' n).
         destruct (string_dec fn n) as [->|NE].
         -- now rewrite L.
         -- destruct (lookup n ms); simpl; auto. f_equal. unfold buffered. now rewrite hit1_cons_other.
 Qed.
 
-Lemma apply_buffer_names : forall buf ms, names (fst (apply_buffer buf ms)) = names ms.
+Lemma apply_buffer_names : forall buf ms, names (apply_buffer buf ms) = names ms.
 Proof.
   induction buf as [|[fn ovs] r IH]; simpl; intros ms; auto.
   destruct ovs; auto. destruct (lookup fn ms) as [m|] eqn:L; auto.
-  unfold set_ov. destruct (final m); simpl; auto. rewrite IH. eapply names_assign_present; eauto.
+  rewrite IH. eapply names_assign_present; eauto.
 Qed.
 
+(* a member that is not a function (nor an alias to one) is not changed by the buffer pass *)
+Lemma set_ov_nonfun : forall d ms ovs, nkind d <> KFun -> set_ov (Obj d ms) ovs = Obj d ms.
+Proof. intros d ms ovs N. unfold set_ov. simpl. destruct (nkind d); auto; congruence. Qed.
+
+Lemma set_ov_dead_alias : forall tg rt ovs, set_ov (Al tg rt) ovs = Al tg rt.
+Proof. reflexivity. Qed.
+
+Lemma buffered_nonfun : forall buf n d ms, nkind d <> KFun -> buffered buf n (Obj d ms) = Obj d ms.
+Proof. intros. unfold buffered. destruct (hit1 buf n); auto using set_ov_nonfun. Qed.
+
 (* ------------------------------------------------------------------ the members pass, by lookup *)
-Definition member_result (rec : bool -> tree -> tree -> outcome) (via : bool) (sm om : tree) : tree :=
+Definition member_result (rec : tree -> tree -> outcome) (sm om : tree) : tree :=
   match sm with
   | Obj smd _ =>
       match final om with
@@ -345,7 +347,7 @@ Definition member_result (rec : bool -> tree -> tree -> outcome) (via : bool) (s
             match nkind omd with
             | KFun => retarget om (Obj (merge_fun omd smd) omms)
             | KAttr => retarget om (Obj (merge_attr omd smd) omms)
-            | _ => retarget om (out_tree (rec (via || is_alto om) sm (Obj omd omms)))
+            | _ => retarget om (out_tree (rec sm (Obj omd omms)))
             end
           else om
       | _ => om
@@ -353,16 +355,16 @@ Definition member_result (rec : bool -> tree -> tree -> outcome) (via : bool) (s
   | _ => om
   end.
 
-Definition one (rec : bool -> tree -> tree -> outcome) (via : bool) (sm : tree) (before : option tree) : option tree :=
+Definition one (rec : tree -> tree -> outcome) (sm : tree) (before : option tree) : option tree :=
   match before with
-  | None => if via then None else Some (set_rt false sm)
-  | Some om => Some (member_result rec via sm om)
+  | None => Some (set_rt false sm)
+  | Some om => Some (member_result rec sm om)
   end.
 
 (* the field table of one scope: what is under the name n afterwards, given what was there before *)
-Definition table (rec : bool -> tree -> tree -> outcome) (via : bool) (sl : list (string * tree)) (n : string)
+Definition table (rec : tree -> tree -> outcome) (sl : list (string * tree)) (n : string)
                  (before : option tree) : option tree :=
-  match lookup n sl with None => before | Some sm => one rec via sm before end.
+  match lookup n sl with None => before | Some sm => one rec sm before end.
 
 Lemma lookup_snoc_other : forall A n k (v : A) l, k <> n -> lookup n (l ++ [(k, v)]) = lookup n l.
 Proof.
@@ -371,23 +373,23 @@ Proof.
   - rewrite lookup_app_r by auto. simpl. now rewrite eqb_neq'.
 Qed.
 
-Lemma merge_members_cons : forall rec via k sm r acc acc',
-  merge_members rec via ((k, sm) :: r) acc = (acc', None) ->
-  exists acc1, merge_members rec via r acc1 = (acc', None) /\
-    lookup k acc1 = one rec via sm (lookup k acc) /\
+Lemma merge_members_cons : forall rec k sm r acc acc',
+  merge_members rec ((k, sm) :: r) acc = (acc', None) ->
+  exists acc1, merge_members rec r acc1 = (acc', None) /\
+    lookup k acc1 = one rec sm (lookup k acc) /\
     (forall n, k <> n -> lookup n acc1 = lookup n acc) /\
-    names acc1 = match lookup k acc with Some _ => names acc | None => if via then names acc else names acc ++ [k] end.
+    names acc1 = match lookup k acc with Some _ => names acc | None => names acc ++ [k] end.
 Proof.
-  intros rec via k sm r acc acc' H. simpl in H. unfold one.
+  intros rec k sm r acc acc' H. simpl in H. unfold one.
   destruct (lookup k acc) as [om|] eqn:L.
-  - assert (ASG : forall v, merge_members rec via r (assign k v acc) = (acc', None) ->
-              member_result rec via sm om = v ->
-              exists acc1, merge_members rec via r acc1 = (acc', None) /\ lookup k acc1 = Some (member_result rec via sm om) /\
+  - assert (ASG : forall v, merge_members rec r (assign k v acc) = (acc', None) ->
+              member_result rec sm om = v ->
+              exists acc1, merge_members rec r acc1 = (acc', None) /\ lookup k acc1 = Some (member_result rec sm om) /\
                 (forall n, k <> n -> lookup n acc1 = lookup n acc) /\ names acc1 = names acc).
     { intros v Hv E. exists (assign k v acc). split; auto. split; [rewrite lookup_assign_same; now f_equal|].
       split; [intros; now apply lookup_assign_other|]. eapply names_assign_present; eauto. }
-    assert (SAME : merge_members rec via r acc = (acc', None) -> member_result rec via sm om = om ->
-              exists acc1, merge_members rec via r acc1 = (acc', None) /\ lookup k acc1 = Some (member_result rec via sm om) /\
+    assert (SAME : merge_members rec r acc = (acc', None) -> member_result rec sm om = om ->
+              exists acc1, merge_members rec r acc1 = (acc', None) /\ lookup k acc1 = Some (member_result rec sm om) /\
                 (forall n, k <> n -> lookup n acc1 = lookup n acc) /\ names acc1 = names acc).
     { intros Hv E. exists acc. rewrite E. auto. }
     destruct sm as [smd smms|tg rt|tg rt y]; [|apply SAME; auto|apply SAME; auto].
@@ -395,29 +397,27 @@ Proof.
     destruct (final om) as [omd omms|tg rt|tg rt y]; [|apply SAME; auto|apply SAME; auto].
     destruct (kind_eqb (nkind omd) (nkind smd)); [|apply SAME; auto].
     destruct (nkind omd).
-    + destruct (rec (via || is_alto om) (Obj smd smms) (Obj omd omms)) as [t|e p].
+    + destruct (rec (Obj smd smms) (Obj omd omms)) as [t|e p].
       * apply (ASG _ H); auto.
       * destruct e; try discriminate. apply (ASG _ H); auto.
-    + destruct (rec (via || is_alto om) (Obj smd smms) (Obj omd omms)) as [t|e p].
+    + destruct (rec (Obj smd smms) (Obj omd omms)) as [t|e p].
       * apply (ASG _ H); auto.
       * destruct e; try discriminate. apply (ASG _ H); auto.
     + apply (ASG _ H); auto.
     + apply (ASG _ H); auto.
-  - destruct via.
-    + exists acc. repeat split; auto.
-    + exists (acc ++ [(k, set_rt false sm)]). split; auto. split.
-      * rewrite lookup_app_r by auto. simpl. now rewrite String.eqb_refl.
-      * split; [intros; now apply lookup_snoc_other|]. unfold names. now rewrite map_app.
+  - exists (acc ++ [(k, set_rt false sm)]). split; auto. split.
+    + rewrite lookup_app_r by auto. simpl. now rewrite String.eqb_refl.
+    + split; [intros; now apply lookup_snoc_other|]. unfold names. now rewrite map_app.
 Qed.
 
-Lemma merge_members_lookup : forall rec via sl acc acc',
-  NoDup (names sl) -> merge_members rec via sl acc = (acc', None) ->
-  forall n, lookup n acc' = table rec via sl n (lookup n acc).
+Lemma merge_members_lookup : forall rec sl acc acc',
+  NoDup (names sl) -> merge_members rec sl acc = (acc', None) ->
+  forall n, lookup n acc' = table rec sl n (lookup n acc).
 Proof.
   induction sl as [|[k sm] r IH]; intros acc acc' ND H n.
   - simpl in H. inversion H; subst. reflexivity.
   - inversion ND as [|? ? NI ND']; subst.
-    destruct (merge_members_cons _ _ _ _ _ _ _ H) as (acc1 & H1 & Lk & Lo & _).
+    destruct (merge_members_cons _ _ _ _ _ _ H) as (acc1 & H1 & Lk & Lo & _).
     rewrite (IH _ _ ND' H1 n). unfold table; simpl.
     destruct (string_dec k n) as [->|NE].
     + rewrite String.eqb_refl. apply lookup_none_notin in NI. rewrite NI. exact Lk.
@@ -441,16 +441,15 @@ Proof.
   apply String.eqb_eq in E; subst. contradiction.
 Qed.
 
-(* runtime members keep their position; stub-only members are appended in stub order -
-   unless the scope is reached through an alias, where nothing is added *)
-Lemma merge_members_names : forall rec via sl acc acc',
-  NoDup (names sl) -> merge_members rec via sl acc = (acc', None) ->
-  names acc' = names acc ++ (if via then [] else filter (fresh (names acc)) (names sl)).
+(* runtime members keep their position; stub-only members are appended in stub order *)
+Lemma merge_members_names : forall rec sl acc acc',
+  NoDup (names sl) -> merge_members rec sl acc = (acc', None) ->
+  names acc' = names acc ++ filter (fresh (names acc)) (names sl).
 Proof.
   induction sl as [|[k sm] r IH]; intros acc acc' ND H.
-  - simpl in H. inversion H; subst. simpl. destruct via; now rewrite app_nil_r.
+  - simpl in H. inversion H; subst. simpl. now rewrite app_nil_r.
   - inversion ND as [|? ? NI ND']; subst.
-    destruct (merge_members_cons _ _ _ _ _ _ _ H) as (acc1 & H1 & _ & _ & N1).
+    destruct (merge_members_cons _ _ _ _ _ _ H) as (acc1 & H1 & _ & _ & N1).
     rewrite (IH _ _ ND' H1). simpl.
     destruct (lookup k acc) as [om|] eqn:L; rewrite N1.
     + assert (F : fresh (names acc) k = false).
@@ -458,8 +457,7 @@ Proof.
         destruct (in_dec string_dec k (names acc)) as [I|NI']; auto.
         apply lookup_none_notin in NI'. congruence. }
       now rewrite F.
-    + destruct via; auto.
-      assert (F : fresh (names acc) k = true).
+    + assert (F : fresh (names acc) k = true).
       { unfold fresh. apply negb_true_iff. destruct (existsb (String.eqb k) (names acc)) eqn:E; auto.
         apply existsb_eqb_in in E. apply lookup_none_notin in L. contradiction. }
       rewrite F. rewrite <- app_assoc. simpl. f_equal. f_equal. now apply filter_fresh_snoc.
@@ -469,60 +467,47 @@ Qed.
 Lemma buffer_items_buf_of : forall d b, buffer_items (nov d) = Ok b -> buf_of d = b.
 Proof. intros d b; unfold buffer_items, buf_of. destruct (nov d); intros H; inversion H; auto. Qed.
 
-Theorem field_table_via : forall via sd sms od oms r,
-  merge_obj via (Obj sd sms) (Obj od oms) = Done r ->
-  NoDup (names sms) -> NoDup (names (buf_of sd)) ->
-  exists rms,
-    r = Obj (with_imp (with_doc od (merge_doc (ndoc od) (ndoc sd))) (update_imports (nimp od) (nimp sd))) rms /\
-    names rms = names oms ++ (if via then [] else filter (fresh (names oms)) (names sms)) /\
-    forall n, lookup n rms = table merge_obj via sms n (option_map (buffered (buf_of sd) n) (lookup n oms)).
-Proof.
-  intros via sd sms od oms r H ND NB. rewrite merge_obj_eq in H. cbv zeta in H.
-  destruct (buffer_items (nov sd)) as [buf|e] eqn:BI; [|discriminate].
-  apply buffer_items_buf_of in BI. subst buf.
-  destruct (apply_buffer (buf_of sd) oms) as [oms1 [e|]] eqn:AB; [discriminate|].
-  destruct (merge_members merge_obj via sms oms1) as [oms2 [e|]] eqn:MM; [discriminate|].
-  inversion H; subst. exists oms2. split; auto. split.
-  - rewrite (merge_members_names _ _ _ _ _ ND MM).
-    pose proof (apply_buffer_names (buf_of sd) oms) as N. rewrite AB in N. simpl in N. now rewrite N.
-  - intros n. rewrite (merge_members_lookup _ _ _ _ _ ND MM n).
-    now rewrite (apply_buffer_lookup _ _ _ NB AB n).
-Qed.
-
 Theorem field_table : forall sd sms od oms r,
-  merge_obj false (Obj sd sms) (Obj od oms) = Done r ->
+  merge_obj (Obj sd sms) (Obj od oms) = Done r ->
   NoDup (names sms) -> NoDup (names (buf_of sd)) ->
   exists rms,
     r = Obj (with_imp (with_doc od (merge_doc (ndoc od) (ndoc sd))) (update_imports (nimp od) (nimp sd))) rms /\
     names rms = names oms ++ filter (fresh (names oms)) (names sms) /\
-    forall n, lookup n rms = table merge_obj false sms n (option_map (buffered (buf_of sd) n) (lookup n oms)).
-Proof. intros sd sms od oms r H ND NB. exact (field_table_via false _ _ _ _ _ H ND NB). Qed.
+    forall n, lookup n rms = table merge_obj sms n (option_map (buffered (buf_of sd) n) (lookup n oms)).
+Proof.
+  intros sd sms od oms r H ND NB. rewrite merge_obj_eq in H. cbv zeta in H.
+  destruct (buffer_items (nov sd)) as [buf|e] eqn:BI; [|discriminate].
+  apply buffer_items_buf_of in BI. subst buf.
+  destruct (merge_members merge_obj sms (apply_buffer (buf_of sd) oms)) as [oms2 [e|]] eqn:MM; [discriminate|].
+  inversion H; subst. exists oms2. split; auto. split.
+  - rewrite (merge_members_names _ _ _ _ ND MM). now rewrite apply_buffer_names.
+  - intros n. rewrite (merge_members_lookup _ _ _ _ ND MM n). now rewrite (apply_buffer_lookup _ _ NB n).
+Qed.
 
 (* ------------------------------------------------------------------ rows of the table *)
 Section Rows.
-  Variables (via : bool) (sd : node) (sms : list (string * tree)) (od : node) (oms : list (string * tree)) (r : tree).
-  Hypothesis H : merge_obj via (Obj sd sms) (Obj od oms) = Done r.
+  Variables (sd : node) (sms : list (string * tree)) (od : node) (oms : list (string * tree)) (r : tree).
+  Hypothesis H : merge_obj (Obj sd sms) (Obj od oms) = Done r.
   Hypothesis ND : NoDup (names sms).
   Hypothesis NB : NoDup (names (buf_of sd)).
 
   Lemma row_lookup : forall n,
-    lookup n (members r) = table merge_obj via sms n (option_map (buffered (buf_of sd) n) (lookup n oms)).
+    lookup n (members r) = table merge_obj sms n (option_map (buffered (buf_of sd) n) (lookup n oms)).
   Proof.
-    intros n. destruct (field_table_via _ _ _ _ _ _ H ND NB) as (rms & -> & _ & T). simpl. apply T.
+    intros n. destruct (field_table _ _ _ _ _ H ND NB) as (rms & -> & _ & T). simpl. apply T.
   Qed.
 
   Lemma scope_fields :
     exists rd rms, r = Obj rd rms /\ nkind rd = nkind od /\ ndoc rd = merge_doc (ndoc od) (ndoc sd) /\
       nimp rd = update_imports (nimp od) (nimp sd) /\ nrt rd = nrt od /\ nov rd = nov od /\
-      names rms = names oms ++ (if via then [] else filter (fresh (names oms)) (names sms)).
+      names rms = names oms ++ filter (fresh (names oms)) (names sms).
   Proof.
-    destruct (field_table_via _ _ _ _ _ _ H ND NB) as (rms & -> & N & _).
+    destruct (field_table _ _ _ _ _ H ND NB) as (rms & -> & N & _).
     eexists; eexists; split; [reflexivity|]. simpl. repeat split; auto.
   Qed.
 
   Lemma stub_only_row : forall n sm,
-    lookup n oms = None -> lookup n sms = Some sm ->
-    lookup n (members r) = if via then None else Some (set_rt false sm).
+    lookup n oms = None -> lookup n sms = Some sm -> lookup n (members r) = Some (set_rt false sm).
   Proof. intros n sm LO LS. rewrite row_lookup. unfold table. rewrite LS, LO. reflexivity. Qed.
 
   Lemma runtime_only_row : forall n,
@@ -531,7 +516,7 @@ Section Rows.
 
   Lemma both_row : forall n om sm,
     lookup n oms = Some om -> lookup n sms = Some sm ->
-    lookup n (members r) = Some (member_result merge_obj via sm (buffered (buf_of sd) n om)).
+    lookup n (members r) = Some (member_result merge_obj sm (buffered (buf_of sd) n om)).
   Proof. intros n om sm LO LS. rewrite row_lookup. unfold table. rewrite LS, LO. reflexivity. Qed.
 
   Lemma stub_alias_row : forall n om tg rt,
@@ -543,14 +528,15 @@ Section Rows.
     lookup n oms = Some (Al tg rt) -> lookup n sms = Some sm ->
     lookup n (members r) = Some (Al tg rt).
   Proof.
-    intros. erewrite both_row by eauto. unfold buffered. simpl. destruct (hit1 (buf_of sd) n); destruct sm; reflexivity.
+    intros. erewrite both_row by eauto. unfold buffered. destruct (hit1 (buf_of sd) n); destruct sm; reflexivity.
   Qed.
 
-  Lemma buffered_obj : forall n omd omms,
+  Lemma buffered_fun : forall n omd omms, nkind omd = KFun ->
     buffered (buf_of sd) n (Obj omd omms) =
     Obj (match hit1 (buf_of sd) n with Some ovs => with_ov omd (OvList ovs) | None => omd end) omms.
-  Proof. intros. unfold buffered. simpl. destruct (hit1 (buf_of sd) n); reflexivity. Qed.
+  Proof. intros n omd omms K. unfold buffered, set_ov. simpl. rewrite K. destruct (hit1 (buf_of sd) n); reflexivity. Qed.
 
+  (* kind mismatch between two objects: the runtime object stays as it is; a function only takes the pending overloads *)
   Lemma mismatch_row : forall n omd omms smd smms,
     lookup n oms = Some (Obj omd omms) -> lookup n sms = Some (Obj smd smms) ->
     nkind omd <> nkind smd ->
@@ -558,31 +544,26 @@ Section Rows.
   Proof.
     intros n omd omms smd smms LO LS NE. erewrite both_row by eauto.
     assert (K : kind_eqb (nkind omd) (nkind smd) = false) by (destruct (nkind omd), (nkind smd); auto; congruence).
-    rewrite buffered_obj. simpl. destruct (hit1 (buf_of sd) n); simpl; now rewrite K.
+    unfold buffered, set_ov. simpl.
+    destruct (hit1 (buf_of sd) n); simpl; [destruct (kind_eqb (nkind omd) KFun); simpl|]; now rewrite K.
   Qed.
-
-  Lemma mismatch_untouched : forall n omd omms smd smms,
-    lookup n oms = Some (Obj omd omms) -> lookup n sms = Some (Obj smd smms) ->
-    nkind omd <> nkind smd -> hit1 (buf_of sd) n = None ->
-    lookup n (members r) = Some (Obj omd omms).
-  Proof. intros n omd omms smd smms LO LS NE NH. erewrite mismatch_row by eauto. now rewrite buffered_none. Qed.
 
   Lemma attribute_row : forall n omd omms smd smms,
     lookup n oms = Some (Obj omd omms) -> lookup n sms = Some (Obj smd smms) ->
-    nkind omd = KAttr -> nkind smd = KAttr -> hit1 (buf_of sd) n = None ->
+    nkind omd = KAttr -> nkind smd = KAttr ->
     lookup n (members r) = Some (Obj (merge_attr omd smd) omms).
   Proof.
-    intros n omd omms smd smms LO LS K1 K2 NH. erewrite both_row by eauto.
-    rewrite buffered_none by auto. simpl. now rewrite K1, K2.
+    intros n omd omms smd smms LO LS K1 K2. erewrite both_row by eauto.
+    rewrite buffered_nonfun by (rewrite K1; discriminate). simpl. now rewrite K1, K2.
   Qed.
 
   Lemma container_row : forall n omd omms smd smms,
     lookup n oms = Some (Obj omd omms) -> lookup n sms = Some (Obj smd smms) ->
-    nkind omd = nkind smd -> is_container (nkind omd) = true -> hit1 (buf_of sd) n = None ->
-    lookup n (members r) = Some (out_tree (merge_obj via (Obj smd smms) (Obj omd omms))).
+    nkind omd = nkind smd -> is_container (nkind omd) = true ->
+    lookup n (members r) = Some (out_tree (merge_obj (Obj smd smms) (Obj omd omms))).
   Proof.
-    intros n omd omms smd smms LO LS K C NH. erewrite both_row by eauto.
-    rewrite buffered_none by auto. simpl. rewrite <- K. rewrite orb_false_r.
+    intros n omd omms smd smms LO LS K C. erewrite both_row by eauto.
+    rewrite buffered_nonfun by (destruct (nkind omd); simpl in C; discriminate). simpl. rewrite <- K.
     destruct (nkind omd); simpl in *; try discriminate; reflexivity.
   Qed.
 
@@ -593,17 +574,20 @@ Section Rows.
       Some (Obj (merge_fun (match hit1 (buf_of sd) n with Some ovs => with_ov omd (OvList ovs) | None => omd end) smd) omms).
   Proof.
     intros n omd omms smd smms LO LS K1 K2. erewrite both_row by eauto.
-    rewrite buffered_obj. destruct (hit1 (buf_of sd) n); simpl; now rewrite K1, K2.
+    rewrite buffered_fun by auto. destruct (hit1 (buf_of sd) n); simpl; now rewrite K1, K2.
   Qed.
 
-  (* the runtime member is an alias to a loaded class / module: the stub class is merged into the target, through the alias *)
+  (* the runtime member is an alias to a loaded class / module: the stub class is merged into the target - the same merge *)
   Lemma alias_target_container_row : forall n tg rt omd omms smd smms,
     lookup n oms = Some (AlTo tg rt (Obj omd omms)) -> lookup n sms = Some (Obj smd smms) ->
-    nkind omd = nkind smd -> is_container (nkind omd) = true -> hit1 (buf_of sd) n = None ->
-    lookup n (members r) = Some (AlTo tg rt (out_tree (merge_obj true (Obj smd smms) (Obj omd omms)))).
+    nkind omd = nkind smd -> is_container (nkind omd) = true ->
+    lookup n (members r) = Some (AlTo tg rt (out_tree (merge_obj (Obj smd smms) (Obj omd omms)))).
   Proof.
-    intros n tg rt omd omms smd smms LO LS K C NH. erewrite both_row by eauto.
-    rewrite buffered_none by auto. simpl. rewrite <- K. rewrite orb_true_r.
+    intros n tg rt omd omms smd smms LO LS K C. erewrite both_row by eauto.
+    assert (B : buffered (buf_of sd) n (AlTo tg rt (Obj omd omms)) = AlTo tg rt (Obj omd omms)).
+    { unfold buffered, set_ov. simpl. destruct (hit1 (buf_of sd) n); auto.
+      destruct (nkind omd); simpl in C; try discriminate; reflexivity. }
+    rewrite B. simpl. rewrite <- K.
     destruct (nkind omd); simpl in *; try discriminate; reflexivity.
   Qed.
 
@@ -669,8 +653,8 @@ Lemma merge_fun_fields : forall o s,
   nov (merge_fun o s) = if truthy (nov s) then nov s else nov o.
 Proof. intros; unfold merge_fun. destruct (truthy (nov s)); simpl; repeat split; reflexivity. Qed.
 
-Theorem function_row : forall via sd sms od oms r n omd omms smd smms,
-  merge_obj via (Obj sd sms) (Obj od oms) = Done r -> NoDup (names sms) -> NoDup (names (buf_of sd)) ->
+Theorem function_row : forall sd sms od oms r n omd omms smd smms,
+  merge_obj (Obj sd sms) (Obj od oms) = Done r -> NoDup (names sms) -> NoDup (names (buf_of sd)) ->
   lookup n oms = Some (Obj omd omms) -> lookup n sms = Some (Obj smd smms) ->
   nkind omd = KFun -> nkind smd = KFun -> NoDup (names (nparams smd)) ->
   exists rd, lookup n (members r) = Some (Obj rd omms) /\
@@ -686,7 +670,7 @@ Theorem function_row : forall via sd sms od oms r n omd omms smd smms,
     nov rd = if truthy (nov smd) then nov smd
              else match hit1 (buf_of sd) n with Some ovs => OvList ovs | None => nov omd end.
 Proof.
-  intros via sd sms od oms r n omd omms smd smms H ND NB LO LS K1 K2 NP.
+  intros sd sms od oms r n omd omms smd smms H ND NB LO LS K1 K2 NP.
   eexists; split; [eapply function_row_raw; eauto|].
   set (omd' := match hit1 (buf_of sd) n with Some ovs => with_ov omd (OvList ovs) | None => omd end).
   destruct (merge_fun_fields omd' smd) as (F1 & F2 & _ & _ & F5 & F6 & F7 & F8).
@@ -713,7 +697,7 @@ Lemma merge_doc_rule : forall o s,
   merge_doc o s = match o with Some d => Some d | None => s end.
 Proof. intros [d|] s; reflexivity. Qed.
 
-(* ------------------------------------------------------------------ when does a merge raise *)
+(* ------------------------------------------------------------------ a merge never raises *)
 (* stubs as the visitor builds them: every module / class carries its buffer dict *)
 Fixpoint dict_ok (t : tree) : bool :=
   match t with
@@ -729,112 +713,38 @@ Definition root_container (t : tree) : bool :=
 Definition root_buf (t : tree) : list (string * list string) :=
   match t with Obj d _ => buf_of d | _ => [] end.
 
-Lemma hits_cons : forall p fn ovs r ms,
-  hits p ((fn, ovs) :: r) ms =
-  (match ovs with [] => false | _ :: _ => match lookup fn ms with Some m => p m | None => false end end) || hits p r ms.
-Proof. reflexivity. Qed.
+Definition completes (rec : tree -> tree -> outcome) (sm : tree) : Prop :=
+  root_container sm = true -> forall omd omms, exists t, rec sm (Obj omd omms) = Done t.
 
-Lemma hits_unres_assign_obj : forall fn m d mm d' mm' r ms,
-  lookup fn ms = Some m -> final m = Obj d mm ->
-  hits unresolvable r (assign fn (retarget m (Obj d' mm')) ms) = hits unresolvable r ms.
+Lemma merge_members_snd : forall rec sl,
+  Forall (fun p => completes rec (snd p)) sl -> forall acc, snd (merge_members rec sl acc) = None.
 Proof.
-  intros fn m d mm d' mm' r ms L F. induction r as [|[k ovs] r IH]; auto.
-  rewrite !hits_cons, IH. f_equal. destruct ovs; auto.
-  destruct (string_dec fn k) as [->|NE].
-  - rewrite lookup_assign_same, L. unfold unresolvable. now rewrite final_retarget_obj, F.
-  - now rewrite lookup_assign_other.
-Qed.
-
-Lemma apply_buffer_snd : forall buf ms,
-  snd (apply_buffer buf ms) = if hits unresolvable buf ms then Some EAlias else None.
-Proof.
-  induction buf as [|[fn ovs] r IH]; intros ms; auto.
-  rewrite hits_cons. simpl. destruct ovs as [|x l]; simpl; auto.
-  destruct (lookup fn ms) as [m|] eqn:L; simpl; auto.
-  unfold set_ov, unresolvable. destruct (final m) as [d mm|tg rt|tg rt y] eqn:F; simpl; auto.
-  - rewrite IH. erewrite hits_unres_assign_obj; eauto.
-  - pose proof (final_not_alto m) as N. rewrite F in N. discriminate.
-Qed.
-
-Definition alias_only (rec : bool -> tree -> tree -> outcome) (sm : tree) : Prop :=
-  root_container sm = true -> forall v omd omms e part, rec v sm (Obj omd omms) = Raised e part -> e = EAlias.
-
-Lemma merge_members_snd : forall rec via sl,
-  Forall (fun p => alias_only rec (snd p)) sl -> forall acc, snd (merge_members rec via sl acc) = None.
-Proof.
-  intros rec via sl F; induction F as [|[n sm] r H F IH]; simpl; intros acc; auto.
-  destruct (lookup n acc) as [om|]; [|destruct via; auto].
+  intros rec sl F; induction F as [|[n sm] r H F IH]; simpl; intros acc; auto.
+  destruct (lookup n acc) as [om|]; auto.
   destruct sm as [smd smms|tg rt|tg rt y]; auto.
   destruct (final om) as [omd omms|tg rt|tg rt y]; auto.
   destruct (kind_eqb (nkind omd) (nkind smd)) eqn:K; auto.
   assert (KE : nkind omd = nkind smd) by (destruct (nkind omd), (nkind smd); auto; discriminate).
-  unfold alias_only in H; simpl in H.
+  unfold completes in H; simpl in H.
   destruct (nkind omd) eqn:KO; auto.
-  - destruct (rec (via || is_alto om) (Obj smd smms) (Obj omd omms)) as [t|e p] eqn:R; auto.
-    rewrite <- KE in H. specialize (H eq_refl _ _ _ _ _ R). subst e. auto.
-  - destruct (rec (via || is_alto om) (Obj smd smms) (Obj omd omms)) as [t|e p] eqn:R; auto.
-    rewrite <- KE in H. specialize (H eq_refl _ _ _ _ _ R). subst e. auto.
+  - rewrite <- KE in H. destruct (H eq_refl omd omms) as (t & R). rewrite R. auto.
+  - rewrite <- KE in H. destruct (H eq_refl omd omms) as (t & R). rewrite R. auto.
 Qed.
 
-(* A merge raises exactly when a pending overload group of the stubs module itself names an alias of the
-   runtime module whose target is not loaded; then it is AliasResolutionError.  Deeper hits are swallowed by
-   the caller's suppress. *)
-Lemma merge_obj_raises : forall s, dict_ok s = true -> root_container s = true -> forall via od oms,
-  match merge_obj via s (Obj od oms) with
-  | Done _ => hits unresolvable (root_buf s) oms = false
-  | Raised e _ => e = EAlias /\ hits unresolvable (root_buf s) oms = true
-  end.
+(* Merging stubs (as the visitor builds them) into a module or class always completes. *)
+Theorem never_raises : forall s, dict_ok s = true -> root_container s = true -> forall od oms,
+  exists r, merge_obj s (Obj od oms) = Done r.
 Proof.
-  induction s as [tg rt|tg rt x _|sd sms IH] using tree_ind'; intros DK RC via od oms; [discriminate|discriminate|].
+  induction s as [tg rt|tg rt x _|sd sms IH] using tree_ind'; intros DK RC od oms; [discriminate|discriminate|].
   simpl in DK, RC. rewrite RC in DK. apply andb_true_iff in DK. destruct DK as [DV DM].
-  rewrite merge_obj_eq. cbv zeta. simpl root_buf. unfold buf_of.
+  rewrite merge_obj_eq. cbv zeta.
   destruct (nov sd) as [| |b] eqn:NV; try discriminate. simpl.
-  pose proof (apply_buffer_snd b oms) as HS.
-  destruct (apply_buffer b oms) as [oms1 oe]. simpl in HS. subst oe.
-  destruct (hits unresolvable b oms); [split; reflexivity|].
-  assert (F : Forall (fun p => alias_only merge_obj (snd p)) sms).
+  assert (F : Forall (fun p => completes merge_obj (snd p)) sms).
   { apply Forall_forall. intros p Ip. rewrite Forall_forall in IH. specialize (IH p Ip).
     rewrite forallb_forall in DM. specialize (DM p Ip).
-    intros RCp v omd omms e part R. specialize (IH DM RCp v omd omms). rewrite R in IH. tauto. }
-  pose proof (merge_members_snd merge_obj via sms F oms1) as HM.
-  destruct (merge_members merge_obj via sms oms1) as [oms2 oe]. simpl in HM. subst oe. reflexivity.
-Qed.
-
-(* ------------------------------------------------------------------ the known gaps *)
-Lemma gap_eq : forall here via sd sms od oms,
-  gap here via (Obj sd sms) (Obj od oms) = here via (buf_of sd) sms oms || gap_members (gap here) via sms oms.
-Proof. reflexivity. Qed.
-
-Lemma hits_false_hit1 : forall p buf oms n m,
-  hits p buf oms = false -> lookup n oms = Some m -> p m = true -> hit1 buf n = None.
-Proof.
-  intros p buf oms n m HH L PM. unfold hit1.
-  destruct (lookup n buf) as [[|x l]|] eqn:LB; auto.
-  apply lookup_in in LB. unfold hits in HH.
-  assert (E : existsb (fun e => match snd e with [] => false | _ :: _ => match lookup (fst e) oms with Some m => p m | None => false end end) buf = true).
-  { apply existsb_exists. exists (n, x :: l). split; auto. simpl. now rewrite L. }
-  congruence.
-Qed.
-
-Lemma no_F2_no_hit : forall sd sms od oms n om,
-  known_gap_F2 (Obj sd sms) (Obj od oms) = false -> lookup n oms = Some om -> is_nonfun_obj om = true ->
-  hit1 (buf_of sd) n = None.
-Proof.
-  unfold known_gap_F2. intros sd sms od oms n om G L P. rewrite gap_eq in G.
-  apply orb_false_iff in G. destruct G as [G _]. eapply hits_false_hit1; eauto.
-Qed.
-
-Lemma gap_members_in : forall rec via sl oms n smd smms om omd omms,
-  gap_members rec via sl oms = false -> In (n, Obj smd smms) sl -> lookup n oms = Some om ->
-  final om = Obj omd omms ->
-  kind_eqb (nkind omd) (nkind smd) = true -> is_container (nkind omd) = true ->
-  rec (via || is_alto om) (Obj smd smms) (Obj omd omms) = false.
-Proof.
-  induction sl as [|[k sm] r IH]; simpl; intros oms n smd smms om omd omms G I L F K C; [contradiction|].
-  apply orb_false_iff in G. destruct G as [G1 G2].
-  destruct I as [I|I].
-  - inversion I; subst. rewrite L, F in G1. rewrite K, C in G1. exact G1.
-  - eapply IH; eauto.
+    intros RCp omd omms. apply IH; auto. }
+  pose proof (merge_members_snd merge_obj sms F (apply_buffer b oms)) as HM.
+  destruct (merge_members merge_obj sms (apply_buffer b oms)) as [oms2 oe]. simpl in HM. subst oe. eauto.
 Qed.
 
 Definition stub_side_irrelevant (sm : option tree) (om : tree) : Prop :=
@@ -844,80 +754,34 @@ Definition stub_side_irrelevant (sm : option tree) (om : tree) : Prop :=
   end.
 
 (* a runtime object that is not a function, whose stub counterpart is missing, an alias or of another kind, is untouched *)
-Theorem untouched_modulo_known : forall via sd sms od oms r n omd omms,
-  merge_obj via (Obj sd sms) (Obj od oms) = Done r -> NoDup (names sms) -> NoDup (names (buf_of sd)) ->
-  known_gap_F2 (Obj sd sms) (Obj od oms) = false ->
+Theorem untouched : forall sd sms od oms r n omd omms,
+  merge_obj (Obj sd sms) (Obj od oms) = Done r -> NoDup (names sms) -> NoDup (names (buf_of sd)) ->
   lookup n oms = Some (Obj omd omms) -> nkind omd <> KFun -> stub_side_irrelevant (lookup n sms) (Obj omd omms) ->
   lookup n (members r) = Some (Obj omd omms).
 Proof.
-  intros via sd sms od oms r n omd omms H ND NB G LO NF IR.
-  assert (NH : hit1 (buf_of sd) n = None).
-  { eapply no_F2_no_hit; eauto. unfold is_nonfun_obj. simpl. destruct (nkind omd); auto; congruence. }
+  intros sd sms od oms r n omd omms H ND NB LO NF IR.
   destruct (lookup n sms) as [sm|] eqn:LS.
-  - erewrite both_row by eauto. rewrite buffered_none by auto. f_equal.
+  - erewrite both_row by eauto. rewrite buffered_nonfun by auto. f_equal.
     destruct sm as [smd smms|tg rt|tg rt y]; try reflexivity.
     simpl in IR. simpl.
     assert (K : kind_eqb (nkind omd) (nkind smd) = false).
     { destruct (nkind omd), (nkind smd); auto; exfalso; apply IR; reflexivity. }
     now rewrite K.
-  - erewrite runtime_only_row by eauto. rewrite LO. simpl. now rewrite buffered_none.
+  - erewrite runtime_only_row by eauto. rewrite LO. simpl. now rewrite buffered_nonfun.
 Qed.
 
-(* with no gap anywhere, the sub-merge of a class / module present on both sides completes *)
-Theorem container_row_modulo_known : forall sd sms od oms r n omd omms smd smms,
-  merge_obj false (Obj sd sms) (Obj od oms) = Done r -> NoDup (names sms) -> NoDup (names (buf_of sd)) ->
-  known_gap_F1 (Obj sd sms) (Obj od oms) = false -> known_gap_F2 (Obj sd sms) (Obj od oms) = false ->
+(* the sub-merge of a class / module present on both sides completes, and is the member afterwards *)
+Theorem container_row_done : forall sd sms od oms r n omd omms smd smms,
+  merge_obj (Obj sd sms) (Obj od oms) = Done r -> NoDup (names sms) -> NoDup (names (buf_of sd)) ->
   lookup n oms = Some (Obj omd omms) -> lookup n sms = Some (Obj smd smms) ->
   nkind omd = nkind smd -> is_container (nkind omd) = true -> dict_ok (Obj smd smms) = true ->
-  exists r', merge_obj false (Obj smd smms) (Obj omd omms) = Done r' /\ lookup n (members r) = Some r' /\
-             known_gap_F1 (Obj smd smms) (Obj omd omms) = false /\ known_gap_F2 (Obj smd smms) (Obj omd omms) = false.
+  exists r', merge_obj (Obj smd smms) (Obj omd omms) = Done r' /\ lookup n (members r) = Some r'.
 Proof.
-  intros sd sms od oms r n omd omms smd smms H ND NB G1 G2 LO LS K C DK.
-  assert (NH : hit1 (buf_of sd) n = None).
-  { eapply no_F2_no_hit; eauto. unfold is_nonfun_obj. simpl. destruct (nkind omd); simpl in *; auto; discriminate. }
-  assert (KE : kind_eqb (nkind omd) (nkind smd) = true) by (rewrite K; destruct (nkind smd); reflexivity).
-  unfold known_gap_F1, known_gap_F2 in *. rewrite gap_eq in G1, G2.
-  apply orb_false_iff in G1. destruct G1 as [_ G1]. apply orb_false_iff in G2. destruct G2 as [_ G2].
-  pose proof (gap_members_in _ _ _ _ _ _ _ _ _ _ G1 (lookup_in _ _ _ _ LS) LO eq_refl KE C) as N1.
-  pose proof (gap_members_in _ _ _ _ _ _ _ _ _ _ G2 (lookup_in _ _ _ _ LS) LO eq_refl KE C) as N2.
-  change (false || is_alto (Obj omd omms)) with false in N1, N2.
+  intros sd sms od oms r n omd omms smd smms H ND NB LO LS K C DK.
   assert (RC : root_container (Obj smd smms) = true) by (simpl; now rewrite <- K).
-  pose proof (merge_obj_raises (Obj smd smms) DK RC false omd omms) as R.
-  pose proof (container_row _ _ _ _ _ _ H ND NB n omd omms smd smms LO LS K C NH) as CR.
-  destruct (merge_obj false (Obj smd smms) (Obj omd omms)) as [t|e p] eqn:M.
-  - exists t. simpl in CR. auto.
-  - destruct R as [_ R]. rewrite gap_eq in N1. apply orb_false_iff in N1. simpl in R. destruct N1 as [N1 _]. congruence.
-Qed.
-
-Theorem never_raises_modulo_known : forall s od oms,
-  dict_ok s = true -> root_container s = true -> known_gap_F1 s (Obj od oms) = false ->
-  exists r, merge_obj false s (Obj od oms) = Done r.
-Proof.
-  intros s od oms DK RC G. pose proof (merge_obj_raises s DK RC false od oms) as R.
-  destruct (merge_obj false s (Obj od oms)) as [t|e p]; eauto.
-  destruct R as [_ R]. destruct s as [sd sms| |]; try discriminate.
-  unfold known_gap_F1 in G. rewrite gap_eq in G. apply orb_false_iff in G. simpl in R. destruct G; congruence.
-Qed.
-
-Theorem raises_only_alias_error : forall s od oms e p,
-  dict_ok s = true -> root_container s = true -> merge_obj false s (Obj od oms) = Raised e p ->
-  e = EAlias /\ known_gap_F1 s (Obj od oms) = true.
-Proof.
-  intros s od oms e p DK RC M. pose proof (merge_obj_raises s DK RC false od oms) as R. rewrite M in R.
-  destruct R as [-> R]. split; auto. destruct s as [sd sms| |]; try discriminate.
-  unfold known_gap_F1. rewrite gap_eq. simpl in R. now rewrite R.
-Qed.
-
-(* ------------------------------------------------------------------ scopes reached through an alias (F3) *)
-(* In a scope reached through an alias nothing is ever added: the universal form of finding F3. *)
-Theorem below_alias_nothing_added : forall sd sms od oms r,
-  merge_obj true (Obj sd sms) (Obj od oms) = Done r -> NoDup (names sms) -> NoDup (names (buf_of sd)) ->
-  names (members r) = names oms /\
-  forall n sm, lookup n oms = None -> lookup n sms = Some sm -> lookup n (members r) = None.
-Proof.
-  intros sd sms od oms r H ND NB. split.
-  - destruct (scope_fields _ _ _ _ _ _ H ND NB) as (rd & rms & -> & _ & _ & _ & _ & _ & N). simpl. now rewrite N, app_nil_r.
-  - intros n sm LO LS. exact (stub_only_row _ _ _ _ _ _ H ND NB n sm LO LS).
+  destruct (never_raises (Obj smd smms) DK RC omd omms) as (t & M).
+  pose proof (container_row _ _ _ _ _ H ND NB n omd omms smd smms LO LS K C) as CR.
+  rewrite M in CR. eauto.
 Qed.
 
 (* ------------------------------------------------------------------ order *)
@@ -930,16 +794,16 @@ Qed.
 Lemma merge_stubs_two_regular : forall a b, is_pyi a = false -> is_pyi b = false -> merge_stubs a b = Err EValue.
 Proof. intros [pa ta] [pb tb]; simpl; intros -> ->. reflexivity. Qed.
 
-Theorem set_member_order_modulo_known : forall s od oms,
-  dict_ok s = true -> root_container s = true -> known_gap_F1 s (Obj od oms) = false ->
+Theorem set_member_order : forall s od oms,
+  dict_ok s = true -> root_container s = true ->
   set_member_module (mkF true s) (mkF false (Obj od oms)) = set_member_module (mkF false (Obj od oms)) (mkF true s) /\
-  exists r, set_member_module (mkF true s) (mkF false (Obj od oms)) = Ok (mkF false r) /\ merge_obj false s (Obj od oms) = Done r.
+  exists r, set_member_module (mkF true s) (mkF false (Obj od oms)) = Ok (mkF false r) /\ merge_obj s (Obj od oms) = Done r.
 Proof.
-  intros s od oms DK RC G. destruct (never_raises_modulo_known s od oms DK RC G) as (r & M).
+  intros s od oms DK RC. destruct (never_raises s DK RC od oms) as (r & M).
   unfold set_member_module, roles; simpl. rewrite M. split; eauto.
 Qed.
 
-(* ------------------------------------------------------------------ witnesses *)
+(* ------------------------------------------------------------------ examples *)
 Definition nd (k : kind) : node := mkNode k None [] None OvNone None true [].
 Definition scope (k : kind) (buf : list (string * list string)) : node := with_ov (nd k) (OvDict buf).
 
@@ -957,10 +821,11 @@ Definition ex_s : tree :=
       [("f", Obj (with_ret (with_params (nd KFun) [("x", Some "int")]) (Some "int")) []);
        ("K", Obj (with_ann (nd KAttr) (Some "int")) []);
        ("only", Obj (with_ret (nd KFun) (Some "str")) [])].
-(* stubs with only @overload signatures for the alias g / for the class K *)
+(* the inputs of the three repaired defects:
+   only @overload signatures for the alias g (F1) / for the class K (F2);
+   class C:  def m(self) -> int: ...   def only(self) -> int: ...   for the re-exported class C (F3) *)
 Definition ex_s_F1 : tree := Obj (scope KMod [("g", ["g(x: int) -> int"])]) [].
 Definition ex_s_F2 : tree := Obj (scope KMod [("K", ["K(x: int) -> int"])]) [].
-(* stubs:  class C:  def m(self) -> int: ...   def only(self) -> int: ... *)
 Definition ex_s_F3 : tree :=
   Obj (scope KMod [])
       [("C", Obj (scope KCls [])
@@ -968,8 +833,8 @@ Definition ex_s_F3 : tree :=
                   ("only", Obj (with_ret (with_params (nd KFun) [("self", None)]) (Some "int")) [])])].
 
 Example hypotheses_satisfiable :
-  exists r, merge_obj false ex_s ex_o = Done r /\ NoDup (names (members ex_s)) /\ NoDup (names (root_buf ex_s)) /\
-    dict_ok ex_s = true /\ known_gap_F1 ex_s ex_o = false /\ known_gap_F2 ex_s ex_o = false /\ known_gap_F3 ex_s ex_o = false /\
+  exists r, merge_obj ex_s ex_o = Done r /\ NoDup (names (members ex_s)) /\ NoDup (names (root_buf ex_s)) /\
+    dict_ok ex_s = true /\
     at_path ["f"] r = Some (Obj (with_ret (with_params (nd KFun) [("x", Some "int"); ("y", Some "bytes")]) (Some "int")) []) /\
     at_path ["K"] r = Some (Obj (scope KCls []) []) /\
     at_path ["g"] r = Some (Al "ext.g" true) /\
@@ -983,80 +848,48 @@ Proof.
   repeat split; vm_compute; reflexivity.
 Qed.
 
-Theorem never_raises_refuted :
-  exists s o, dict_ok s = true /\ root_container s = true /\ NoDup (names (members s)) /\ NoDup (names (root_buf s)) /\
-    (exists p, merge_obj false s o = Raised EAlias p) /\
-    merge_stubs (mkF true s) (mkF false o) = Err EAlias /\ known_gap_F1 s o = true.
+(* the inputs that used to refute the property (findings F1, F2, F3) now satisfy it *)
+Example repaired_witnesses :
+  merge_obj ex_s_F1 ex_o = Done ex_o /\
+  set_member_module (mkF true ex_s_F1) (mkF false ex_o) = set_member_module (mkF false ex_o) (mkF true ex_s_F1) /\
+  merge_obj ex_s_F2 ex_o = Done ex_o /\
+  (exists r, merge_obj ex_s_F3 ex_o = Done r /\
+     at_path ["C"; "m"] r = Some (Obj (with_ret (with_params (nd KFun) [("self", None)]) (Some "int")) []) /\
+     at_path ["C"; "only"] r = Some (Obj (with_rt (with_ret (with_params (nd KFun) [("self", None)]) (Some "int")) false) [])).
 Proof.
-  exists ex_s_F1, ex_o. split; [reflexivity|]. split; [reflexivity|].
-  split; [constructor|]. split; [simpl; repeat constructor; simpl; tauto|].
-  split; [eexists; vm_compute; reflexivity|]. split; vm_compute; reflexivity.
-Qed.
-
-Theorem order_independent_refuted :
-  exists s o, dict_ok s = true /\ root_container s = true /\ known_gap_F1 s o = true /\
-    set_member_module (mkF true s) (mkF false o) <> set_member_module (mkF false o) (mkF true s).
-Proof.
-  exists ex_s_F1, ex_o. split; [reflexivity|]. split; [reflexivity|]. split; [vm_compute; reflexivity|].
-  vm_compute. discriminate.
-Qed.
-
-Theorem untouched_refuted :
-  exists s o r n omd omms, merge_obj false s o = Done r /\ NoDup (names (members s)) /\ NoDup (names (root_buf s)) /\
-    lookup n (members o) = Some (Obj omd omms) /\ nkind omd <> KFun /\
-    stub_side_irrelevant (lookup n (members s)) (Obj omd omms) /\
-    known_gap_F2 s o = true /\ lookup n (members r) <> Some (Obj omd omms).
-Proof.
-  exists ex_s_F2, ex_o. eexists. exists "K". eexists. eexists.
-  split; [vm_compute; reflexivity|]. split; [constructor|]. split; [simpl; repeat constructor; simpl; tauto|].
-  split; [vm_compute; reflexivity|]. split; [simpl; discriminate|]. split; [exact I|].
-  split; [vm_compute; reflexivity|]. vm_compute. discriminate.
-Qed.
-
-(* F3: the stubs add a method to a class that the runtime module only re-exports: the method is lost *)
-Theorem stub_only_below_alias_refuted :
-  exists s o r, merge_obj false s o = Done r /\ dict_ok s = true /\
-    known_gap_F1 s o = false /\ known_gap_F2 s o = false /\ known_gap_F3 s o = true /\
-    (exists x, at_path ["C"; "only"] s = Some x) /\ at_path ["C"; "only"] o = None /\
-    (exists y, at_path ["C"; "m"] r = Some y /\ y <> Obj (with_params (nd KFun) [("self", None)]) []) /\
-    at_path ["C"; "only"] r = None.
-Proof.
-  exists ex_s_F3, ex_o. eexists. split; [vm_compute; reflexivity|].
-  repeat split; try (vm_compute; reflexivity).
-  - eexists; vm_compute; reflexivity.
-  - eexists; split; [vm_compute; reflexivity|]. discriminate.
+  split; [vm_compute; reflexivity|]. split; [vm_compute; reflexivity|]. split; [vm_compute; reflexivity|].
+  eexists. split; [vm_compute; reflexivity|]. split; vm_compute; reflexivity.
 Qed.
 
 (* ------------------------------------------------------------------ statements as they appear in Properties/C19.v *)
 Definition runtime_of (t : tree) : bool := match t with Obj d _ => nrt d | Al _ rt => rt | AlTo _ rt _ => rt end.
 
 Theorem stub_only_marked_not_runtime : forall sd sms od oms r n sm,
-  merge_obj false (Obj sd sms) (Obj od oms) = Done r -> NoDup (names sms) -> NoDup (names (buf_of sd)) ->
+  merge_obj (Obj sd sms) (Obj od oms) = Done r -> NoDup (names sms) -> NoDup (names (buf_of sd)) ->
   lookup n oms = None -> lookup n sms = Some sm ->
   lookup n (members r) = Some (set_rt false sm) /\ runtime_of (set_rt false sm) = false /\
   shape_of (set_rt false sm) = shape_of sm /\ members (set_rt false sm) = members sm.
 Proof.
-  intros sd sms od oms r n sm H ND NB LO LS. split; [exact (stub_only_row _ _ _ _ _ _ H ND NB n sm LO LS)|].
+  intros sd sms od oms r n sm H ND NB LO LS. split; [exact (stub_only_row _ _ _ _ _ H ND NB n sm LO LS)|].
   destruct sm; simpl; auto.
 Qed.
 
-Theorem attribute_row_fields : forall via sd sms od oms r n omd omms smd smms,
-  merge_obj via (Obj sd sms) (Obj od oms) = Done r -> NoDup (names sms) -> NoDup (names (buf_of sd)) ->
+Theorem attribute_row_fields : forall sd sms od oms r n omd omms smd smms,
+  merge_obj (Obj sd sms) (Obj od oms) = Done r -> NoDup (names sms) -> NoDup (names (buf_of sd)) ->
   lookup n oms = Some (Obj omd omms) -> lookup n sms = Some (Obj smd smms) ->
-  nkind omd = KAttr -> nkind smd = KAttr -> known_gap_F2 (Obj sd sms) (Obj od oms) = false ->
+  nkind omd = KAttr -> nkind smd = KAttr ->
   exists rd, lookup n (members r) = Some (Obj rd omms) /\
     nkind rd = KAttr /\ nrt rd = nrt omd /\ nov rd = nov omd /\
     nann rd = nann smd /\ ndoc rd = merge_doc (ndoc omd) (ndoc smd).
 Proof.
-  intros via sd sms od oms r n omd omms smd smms H ND NB LO LS K1 K2 G.
-  assert (NH : hit1 (buf_of sd) n = None) by (eapply no_F2_no_hit; eauto; unfold is_nonfun_obj; simpl; now rewrite K1).
+  intros sd sms od oms r n omd omms smd smms H ND NB LO LS K1 K2.
   exists (merge_attr omd smd). split; [eapply attribute_row; eauto|].
   destruct (merge_attr_fields omd smd) as (A1 & A2 & A3 & A4 & A5). repeat split; auto; try congruence.
 Qed.
 
 Theorem scope_level : forall sd sms od oms r,
-  merge_obj false (Obj sd sms) (Obj od oms) = Done r -> NoDup (names sms) -> NoDup (names (buf_of sd)) ->
+  merge_obj (Obj sd sms) (Obj od oms) = Done r -> NoDup (names sms) -> NoDup (names (buf_of sd)) ->
   exists rd rms, r = Obj rd rms /\ nkind rd = nkind od /\ ndoc rd = merge_doc (ndoc od) (ndoc sd) /\
     nimp rd = update_imports (nimp od) (nimp sd) /\ nrt rd = nrt od /\ nov rd = nov od /\
     names rms = names oms ++ filter (fresh (names oms)) (names sms).
-Proof. intros sd sms od oms r H ND NB. exact (scope_fields _ _ _ _ _ _ H ND NB). Qed.
+Proof. intros sd sms od oms r H ND NB. exact (scope_fields _ _ _ _ _ H ND NB). Qed.
